@@ -18,27 +18,34 @@ Theorem C05_load_flush : forall S d n pk,
   forall a, a < n -> load S (flush S d n pk) a = d a.
 Proof. exact load_flush. Qed.
 
-(* to_dao, flush, load, from_dao: the reloaded graph is isomorphic to the original *)
-Theorem C05_reload : forall S alts pk l r dr s1,
-  wf_heap l r = true -> F04 alts l = true -> to_dao alts l r = Some (dr, s1) ->
+(* to_dao, flush, load, from_dao -- for every round-tripping user code, every class model (alternatively mapped classes and
+   DAOs below an alternatively mapped DAO included) that is coherent on the heap: if the persisted DAO graph fits the schema
+   and lies in F05, the reload terminates, and unless from_dao handed out a mapping object in progress (C04-a: [bad]) the
+   reloaded graph is isomorphic to the original; [bad] cannot happen when no DAO is a mapping-class DAO *)
+Theorem C05_reload : forall enc dec : Z -> list Z -> list Z, (forall c s, dec c (enc c s) = s) ->
+  forall S alts ab pk l r dr s1,
+  wf_heap l r = true -> alts_ok alts l = true -> to_dao enc alts l r = Some (dr, s1) ->
   wf_dao S (dst s1) (nxt s1) = true -> F05 S (dst s1) (nxt s1) = true ->
   (forall a b, a < nxt s1 -> b < nxt s1 -> K S (dst s1) pk a = K S (dst s1) pk b -> a = b) ->
-  exists r' s2, reload S alts pk l r = Some (r', s2) /\ iso (dst s2) r' (heap_of l) r.
+  exists r' s2, reload S enc dec alts ab pk l r = Some (r', s2) /\
+    (bad s2 = false -> iso (dst s2) r' (heap_of l) r) /\
+    ((forall y o, y < nxt s1 -> dst s1 y = Some o -> zassoc_inv (ocls o) alts = None) -> bad s2 = false).
 Proof. exact reload_iso. Qed.
 
-(* the same with every hypothesis on the input: an object graph g that fits the schema (wf_src), without alternatively
-   mapped classes (F04), without repeated collection elements and without values in self-referential single
-   references (F05_src); keys: any assignment injective on the DAOs of a hierarchy *)
-Theorem C05_reload_src : forall S alts pk l r,
+(* with every hypothesis on the input: an object graph g that fits the schema (wf_src), without alternatively mapped
+   classes (strict F04), without repeated collection elements and without values in single references the mapper reads as
+   ONETOMANY (F05_src; none in generated layers since 22a99b9); keys: any assignment injective on the DAOs of a hierarchy *)
+Theorem C05_reload_src : forall S alts ab pk l r,
   wf_heap l r = true -> F04 alts l = true -> wf_src S l = true -> F05_src S l = true ->
-  exists dr s1, to_dao alts l r = Some (dr, s1) /\
+  exists dr s1, to_dao idc alts l r = Some (dr, s1) /\
     ((forall a b, a < nxt s1 -> b < nxt s1 -> K S (dst s1) pk a = K S (dst s1) pk b -> a = b) ->
-     exists r' s2, reload S alts pk l r = Some (r', s2) /\ iso (dst s2) r' (heap_of l) r).
+     exists r' s2, reload S idc idc alts ab pk l r = Some (r', s2) /\ iso (dst s2) r' (heap_of l) r).
 Proof. exact reload_iso_src. Qed.
 
-(* every distinct object is stored as exactly one root row: root row i <-> the reachable object x with memo x = i *)
-Theorem C05_one_root_row_per_object : forall S alts pk l r dr s1,
-  wf_heap l r = true -> F04 alts l = true -> to_dao alts l r = Some (dr, s1) ->
+(* every distinct object is stored as exactly one root row: root row i <-> the reachable object x with memo x = i
+   (any class model, alternatively mapped objects included) *)
+Theorem C05_one_root_row_per_object : forall (enc : Z -> list Z -> list Z) S alts pk l r dr s1,
+  wf_heap l r = true -> to_dao enc alts l r = Some (dr, s1) ->
   length (t_root (flush S (dst s1) (nxt s1) pk)) = nxt s1 /\
   (forall x, reach (heap_of l) r x <-> exists i, mlook x s1 = Some i) /\
   (forall i, i < nxt s1 -> exists x, mlook x s1 = Some i) /\
@@ -52,20 +59,20 @@ Proof. exact one_root_row_per_object. Qed.
    such references lie inside F05 and are covered by C05_reload. *)
 Example C05_regression_selfref_schema :
   wf_heap selfref_heap2 0 = true /\
-  exists r' s2, reload selfref_schema2 [] (pk_id 1) selfref_heap2 0 = Some (r', s2) /\
+  exists r' s2, reload selfref_schema2 idc idc [] [] (pk_id 1) selfref_heap2 0 = Some (r', s2) /\
     ~ iso (dst s2) r' (heap_of selfref_heap2) 0.
 Proof. exact refuted_selfref. Qed.
 
 (* the same graph on the schema the repaired generator produces (no ONETOMANY single reference) reloads correctly *)
 Example C05_selfref_now_inside :
   let S := mkSchema [] [] [(1%Z, [2%Z]); (5%Z, [7%Z])] [] in
-  frag_code S [] selfref_heap2 0 = 7%Z /\ model_reload S [] selfref_heap2 0 = spec_canon selfref_heap2 0.
+  frag_code S [] [] selfref_heap2 0 = 7%Z /\ model_reload S [] [] selfref_heap2 0 = spec_canon selfref_heap2 0.
 Proof. split; vm_compute; reflexivity. Qed.
 
 (* outside F05: a collection holding the same element twice (finding C05-b) *)
 Theorem C05_refuted_repeated_element :
   wf_heap repeated_heap 0 = true /\
-  exists r' s2, reload repeated_schema [] (pk_id 1) repeated_heap 0 = Some (r', s2) /\
+  exists r' s2, reload repeated_schema idc idc [] [] (pk_id 1) repeated_heap 0 = Some (r', s2) /\
     ~ iso (dst s2) r' (heap_of repeated_heap) 0.
 Proof. exact refuted_repeated_element. Qed.
 
@@ -81,8 +88,8 @@ Definition c05_example : lheap :=
 Example C05_nonvacuous :
   wf_heap c05_example 0 = true /\ F04 [] c05_example = true /\
   wf_src c05_schema c05_example = true /\ F05_src c05_schema c05_example = true /\
-  frag_code c05_schema [] c05_example 0 = 7%Z /\
-  model_reload c05_schema [] c05_example 0 = spec_canon c05_example 0 /\
+  frag_code c05_schema [] [] c05_example 0 = 7%Z /\
+  model_reload c05_schema [] [] c05_example 0 = spec_canon c05_example 0 /\
   model_counts c05_schema [] c05_example 0 [1; 2; 3; 5]%Z [7%Z] = SL [SL [SZ 3; SZ 2; SZ 1; SZ 1]; SL [SZ 3]]%Z.
 Proof. repeat split; vm_compute; reflexivity. Qed.
 
